@@ -571,7 +571,7 @@ def continuation_goal(rng, o, callees, vars_, depth=0):
         return ['or', ['if', _succ_goal(rng, o, callees, vars_), t()], t()]
     if r < 0.86:
         return ['not', _succ_goal(rng, o, callees, vars_) if rng.random() < 0.5 else _fail_goal(rng, o, callees, vars_)]
-    if r < 0.93 and depth < 2:
+    if r < 0.93 and depth < 1:
         # K is itself a construct with a continuation
         return ['and', duplicating_goal(rng, o, callees, vars_, depth + 1), continuation_goal(rng, o, callees, vars_, depth + 1)]
     return rand_body(rng, o, callees, vars_, rng.randrange(1, 4), False, False)
@@ -600,7 +600,7 @@ def duplicating_goal(rng, o, callees, vars_, depth=0):
             # explicitly parenthesised on the left:  ( ( C -> T ; E ) ; F )  is not  ( C -> T ; ( E ; F ) )
             return ['or', ['or', ['if', c2, alt('dt2')], alt('de')], alt('d3')]
         return ['or', first, ['or', ['if', c2, alt('dt2')], alt('de')]]
-    if r < 0.86 and depth < 2:
+    if r < 0.86 and depth < 1:
         # an if-then-else in a non-first position of a ; chain, or nested in an alternative
         return ['or', alt('d1'), duplicating_goal(rng, o, callees, vars_, depth + 1)]
     if r < 0.93:
